@@ -122,6 +122,14 @@ PRELUDE = '''#include <cstdint>
 struct VBase : au::UnitImpl<au::Length> {};
 struct VOther : au::UnitImpl<au::Time> {};
 template <typename M> using Scaled = decltype(VBase{} * M{});
+// the question asked by overload resolution: candidate 1 takes the target quantity, candidate 2 a quantity of another dimension,
+// candidate 3 anything at all (an ellipsis loses to every real conversion).  Resolution must succeed and pick 1 exactly when the
+// conversion is permitted, 3 otherwise.
+template <typename Q2, typename Qd> struct Pick {
+    static char (&f(Q2))[1];
+    static char (&f(Qd))[2];
+    static char (&f(...))[3];
+};
 '''
 
 
@@ -154,10 +162,12 @@ def main(tier, seed):
             lines.append(f"using M{ri} = decltype({cxx_mag(ratios[ri])});")
         lines.append("int main() {")
         for (ri, r2, r1) in ids:
-            lines.append(f'  printf("Q {ri} {r2} {r1} conv=%d ctor=%d diffdim=%d\\n", '
+            lines.append(f'  printf("Q {ri} {r2} {r1} conv=%d ctor=%d diffdim=%d ovl=%d\\n", '
                          f"int(std::is_convertible<au::Quantity<Scaled<M{ri}>, {CT[r1]}>, au::Quantity<VBase, {CT[r2]}>>::value), "
                          f"int(std::is_constructible<au::Quantity<VBase, {CT[r2]}>, au::Quantity<Scaled<M{ri}>, {CT[r1]}>>::value), "
-                         f"int(std::is_convertible<au::Quantity<VOther, {CT[r1]}>, au::Quantity<VBase, {CT[r2]}>>::value));")
+                         f"int(std::is_convertible<au::Quantity<VOther, {CT[r1]}>, au::Quantity<VBase, {CT[r2]}>>::value), "
+                         f"int(sizeof(Pick<au::Quantity<VBase, {CT[r2]}>, au::Quantity<VOther, {CT[r2]}>>::f("
+                         f"std::declval<au::Quantity<Scaled<M{ri}>, {CT[r1]}>>()))));")
         lines.append("  return 0;\n}")
         return "\n".join(lines)
     for ci, (compiler, std) in enumerate(configs):
@@ -191,8 +201,9 @@ def main(tier, seed):
                 if culprit:
                     ri, r2, r1, out1 = culprit
                     ms = aulib.pack_str(ratios[ri], "mag")
-                    violations.append({"what": f"asking std::is_convertible<Quantity<U*({ms}), {CT[r1]}>, Quantity<U, {CT[r2]}>> is a hard error under {cfg} "
-                                               "(the policy predicate is not total)", "class": "totality",
+                    violations.append({"what": f"asking whether Quantity<U*({ms}), {CT[r1]}> converts to Quantity<U, {CT[r2]}> (std::is_convertible, "
+                                               f"is_constructible, or overload resolution among f(Quantity<U,{CT[r2]}>), f(Quantity<OtherDim,{CT[r2]}>), "
+                                               f"f(...)) is a hard error under {cfg} (the policy predicate is not total)", "class": "totality",
                                        "rec": {"kind": "totality", "ratio": ms, "R1": r1, "R2": r2, "config": cfg,
                                                "errors": [l for l in out1.split("\n") if "error" in l][:3]}})
                 else:
@@ -265,6 +276,10 @@ def main(tier, seed):
             if got != (m["permit"] == "1"):
                 violations.append({"what": f"model and implementation differ on the policy for ({ms}, {r1} -> {r2})", "class": "corr", "no_input": True,
                                    "broken": "correspondence: permitImplicitFrom", "rec": dict(base, kind="corr", model=a, impl=r)})
+            if r.get("ovl") != ("1" if want else "3"):
+                violations.append({"what": f"overload resolution among f(Quantity<U,{CT[r2]}>), f(Quantity<OtherDim,{CT[r2]}>), f(...) for an argument "
+                                           f"Quantity<U*({ms}), {CT[r1]}> picks candidate {r.get('ovl')}; the policy says {'1' if want else '3 (the fallback)'}",
+                                   "class": "overload", "rec": dict(base, kind="overload", impl=r, formula=want)})
             if r["diffdim"] != "0":
                 violations.append({"what": "is_convertible is true across different dimensions", "class": "diffdim", "rec": dict(base, kind="diffdim")})
             # explicit construction is deleted: constructible iff implicitly convertible
